@@ -5,6 +5,9 @@ HERE="$(cd "$(dirname "${BASH_SOURCE[0]}")" && pwd)"
 ID="$1"; TIER="${2:-${VERIF_TIER:-quick}}"; shift; shift
 export PYTHONHASHSEED=0
 export PYTHONDONTWRITEBYTECODE=1
+# BLAS must not spawn its own thread teams beside Numba's (oversubscription, and irrelevant to the checks)
+export OPENBLAS_NUM_THREADS=1
+export MKL_NUM_THREADS=1
 export VERIF_TIER="$TIER"
 export PYTHONPATH="$HERE${PYTHONPATH:+:$PYTHONPATH}"
 cd "$HERE"
